@@ -5,6 +5,10 @@ w="${VERIF_WORK:-$PWD/.work/c01.$$}"; mkdir -p "$w"
 if ! lib/instr_build.sh harness/c01 "$w/bin" 2> "$w/build.log"; then
   cat "$w/build.log" >&2; echo "TOOL-ERROR: instrumented build failed" >&2; exit 2
 fi
+# borrowed phase: the dataset-level search scenarios of C09 (the clauses C01 states for a search "on a whole dataset")
+if ! INSTR_REUSE=1 lib/instr_build.sh harness/c09 "$w/bin-c09" 2> "$w/build2.log"; then
+  cat "$w/build2.log" >&2; echo "TOOL-ERROR: instrumented build failed" >&2; exit 2
+fi
 [ "${1:-}" = "--warm" ] && exit 0
 { flock -u 9 && exec 9>&-; } 2>/dev/null  # the build is done: release the shared lock on /repo's working tree (.work/repo.lock)
-exec "$w/bin" "$@"
+VERIF_BIN_C09="$w/bin-c09" exec "$w/bin" "$@"
